@@ -1,34 +1,31 @@
 """C15 - SCC lines longer than 32 characters are never returned silently.
 
-Inputs: real SCC streams in the three caption modes (pop-on, paint-on, roll-up 2/3/4), control codes doubled or
-single, rows of 0-40 basic characters; in every stream one load carries 2-4 rows that end up as captions sharing a
-start time (rows on non-adjacent screen rows) or as lines of one caption (adjacent rows); EVERY transmission order
-of that load is generated (a "group").
-Observation (public API): SCCReader().read(stream) -> exception class + message, or the line lengths of the
-returned captions; plus the captions the reader had stored (reader.caption_stash.get_all()) as (format_start, text).
-Correspondence: message / outcome == extracted model length_check (coq/model/SccLen.v) on the stored captions.
-Property oracle: Coq ok_c15 (coq/spec/SpecSccLen.v) on the implementation's outcome; order-independence is checked
-across each group.
+Inputs: real SCC streams in the three caption modes (pop-on, paint-on, roll-up 2/3/4); control codes doubled, single or
+mixed per code; rows of 0-40 cells drawn from EVERY code of the basic / special / extended tables, with blanks at either
+end, double blanks, the transparent space, mid-row codes (one blank cell), characters erased by a backspace; preambles
+of every style (colours, underline, italics), indents and tab offsets; empty rows (a preamble with no text); in every
+stream one load carries 2-4 rows that end up as captions sharing a start time (non-adjacent rows) or as lines of one
+caption (adjacent rows), and EVERY transmission order of that load is generated (a "group"); long streams of 12-30 loads
+past one minute / one hour, drop-frame; reads with simulate_roll_up=True and offset != 0; reader-reuse histories.
+Observation (public API only): SCCReader().read(stream, ...) -> exception class + message, or the returned captions.
+Property oracle: Coq ok_c15_loose (coq/spec/SpecSccLen.v: the error message contains the text of every offending line;
+the exact message format is not part of the statement) on the returned lines, plus the statement's own reading of
+"depends only on the line lengths": the error is raised iff some TRANSMITTED row shows more than 32 cells on a CEA-608
+screen (independent tables of harness/sccgen.py; trailing blanks are not shown; a mid-row code's cell may be rendered
+as a blank or not at all, rows whose two readings fall on different sides of 32 are counted, not judged).
+Correspondence: the full extracted decoder model (request 600): outcome and the returned caption texts. The exact wording
+of the message and the reader's private caption store are compared as COUNTED information only.
 """
 import itertools
 
 import impl
 import sccgen as g
 import sccobs
-from wire import Ok, Err, Some, oracle_batch, oracle1, r_opt
+from wire import Ok, Err, Some, oracle_batch, oracle1
 from pycaption import SCCReader
 
 TABLES = ("GenScc.v",)
 LENS = [0, 1, 2, 10, 31, 32, 33, 34, 40]
-ALPHA = "abcdefghijklmnopqrstuvwxyzABCDEFGHIJKLMNOPQRSTUVWXYZ0123456789.,!?'-"
-MSG_HEAD = "32 character limit for caption cue in scc file.\nLines longer than 32:\n"
-
-
-def rand_row(rng, n):
-    """a row of n displayed characters drawn from every code of the basic / special / extended tables:
-    (tokens, text shown on a 608 screen per the independent tables of sccgen)"""
-    toks = g.rand_tokens(rng, n) if n else []
-    return toks, g.tokens_text(toks)
 
 
 def rand_len(rng, p_long):
@@ -42,92 +39,189 @@ def rand_len(rng, p_long):
     return rng.randint(1, 32)
 
 
-def mk_row(rng, row, n):
-    toks, text = rand_row(rng, n)
-    return (row, text, toks)
+def mk_row(rng, row, n, rich):
+    """-> dict(row, indent, tab, style, toks, lo, hi): lo / hi = shortest / longest text a reader may show"""
+    if n == 0:
+        toks = []
+    elif rich:
+        toks = g.rand_tokens(rng, n, p_mid=0.06, p_bs=0.05, blank_ends=0.5, sp9=True)
+    else:
+        toks = g.rand_tokens(rng, n)
+    lo, hi = g.tokens_bounds(toks)
+    indent, tab, style = 0, 0, 0
+    if rich and rng.random() < 0.5:
+        room = max(0, 32 - len(hi))
+        indent = rng.choice([i for i in (0, 4, 8, 12, 16, 20, 24, 28) if i <= room] or [0])
+        tab = rng.choice([0, 0, 1, 2, 3]) if indent + 3 <= room else 0
+        style = rng.choice([0, 1, 14, 15, rng.randint(2, 13)]) if indent == 0 else rng.choice([0, 1])
+    return {"row": row, "indent": indent, "tab": tab, "style": style, "toks": toks, "lo": lo, "hi": hi}
 
 
 def gen_group(rng, shape=None, mode=None, doubled=None):
-    """-> (mode, doubled, loads, k) : loads = list of lists of (row, text, tokens); load k is the permuted one"""
+    """-> (mode, doubled, loads, k): load k is the one emitted in all its transmission orders"""
     mode = mode or rng.choice(["pop", "pop", "paint", "roll2", "roll3", "roll4"])
-    doubled = (rng.random() < 0.6) if doubled is None else doubled
+    doubled = rng.choice([True, True, False, "mixed"]) if doubled is None else doubled
+    rich = rng.random() < 0.6
     nloads = rng.randint(1, 3)
     k = rng.randrange(nloads)
     p_long = rng.choice([0.0, 0.15, 0.3, 0.5])
     loads = []
     for i in range(nloads):
         if i == k and (shape == "break+repos" or (shape is None and rng.random() < 0.1)):
-            # a row with text, an EMPTY row exactly one row below it, then a non-adjacent long row: a pending line
-            # break and a pending repositioning at once
             r0 = rng.randint(1, 13)
             far = rng.choice([r for r in range(1, 16) if abs(r - r0) > 2])
-            loads.append([mk_row(rng, r0, rng.randint(1, 20)), (r0 + 1, "", []), mk_row(rng, far, rng.choice([33, 34]))])
+            loads.append([mk_row(rng, r0, rng.randint(1, 20), rich), mk_row(rng, r0 + 1, 0, False),
+                          mk_row(rng, far, rng.choice([33, 34]), False)])
+            continue
+        if i == k and shape == "trailing-blank":
+            # a row of 32 characters plus a trailing blank and a short row sharing its start time
+            r0 = rng.randint(1, 15)
+            far = rng.choice([r for r in range(1, 16) if abs(r - r0) > 1])
+            full = mk_row(rng, r0, 32, False)
+            full["toks"] = full["toks"] + [" "]
+            full["lo"], full["hi"] = g.tokens_bounds(full["toks"])
+            loads.append([full, mk_row(rng, far, 1, False)])
             continue
         nrows = rng.choice([2, 2, 3, 3, 4]) if i == k else rng.choice([1, 1, 2])
         if rng.random() < 0.3:
-            start = rng.randint(1, 16 - nrows)           # adjacent rows: lines of one caption (in ascending order)
+            start = rng.randint(1, 16 - nrows)
             rows = list(range(start, start + nrows))
         else:
             rows = rng.sample(range(1, 16), nrows)
-        loads.append([mk_row(rng, r, rand_len(rng, p_long)) for r in rows])
+        loads.append([mk_row(rng, r, rand_len(rng, p_long), rich) for r in rows])
     return mode, doubled, loads, k
 
 
-def flash_stream():
-    """a stream on which read() raises the timing error (a caption displayed for one frame)"""
-    return g.doc([(g.timecode(60, False), [g.ENM, g.RCL, g.pac(15)] + g.text_words("flash") + [g.EOC, g.EDM])])
+def gen_long(rng):
+    """12-30 loads of one or two rows, one over-long row (or none) at a random position"""
+    mode = rng.choice(["pop", "paint", "roll2", "roll3", "roll4"])
+    n = rng.randint(12, 30)
+    bad = rng.randrange(n) if rng.random() < 0.7 else -1
+    loads = []
+    for i in range(n):
+        rows = rng.sample(range(1, 16), rng.choice([1, 1, 2]))
+        load = [mk_row(rng, r, rng.randint(1, 32), False) for r in rows]
+        if i == bad:
+            load[-1] = mk_row(rng, load[-1]["row"], rng.choice([33, 34, 40]), False)
+        loads.append(load)
+    return mode, rng.choice([True, False, "mixed"]), loads
 
 
-def build_stream(mode, doubled, loads):
+def build_stream(mode, doubled, loads, rng=None, base=60, step=30 * 8, drop=False):
+    dd = (lambda: rng.random() < 0.5) if doubled == "mixed" else (lambda: bool(doubled))
     lines = []
-    t = 60
+    t = base
     for load in loads:
         ws = []
         if mode == "pop":
-            ws += g.dbl([g.ENM, g.RCL], doubled)
+            ws += g.dbl([g.ENM], dd()) + g.dbl([g.RCL], dd())
         elif mode == "paint":
-            ws += g.dbl([g.RDC], doubled)
+            ws += g.dbl([g.RDC], dd())
         else:
-            ws += g.dbl([{"roll2": g.RU2, "roll3": g.RU3, "roll4": g.RU4}[mode], g.CR], doubled)
-        for row, text, toks in load:
-            ws += g.dbl([g.pac(row)], doubled) + g.tokens_words(toks, doubled)
+            ws += g.dbl([{"roll2": g.RU2, "roll3": g.RU3, "roll4": g.RU4}[mode]], dd()) + g.dbl([g.CR], dd())
+        for r in load:
+            st = r["style"]
+            if r["indent"]:
+                unit = [g.pac(r["row"], r["indent"], underline=bool(st & 1))]
+            elif st >= 14:
+                unit = [g.pac(r["row"], italics=True, underline=bool(st & 1))]
+            else:
+                unit = [g.pac(r["row"], color=st // 2, underline=bool(st & 1))]
+            if r["tab"]:
+                unit.append(g.tab(r["tab"]))
+            ws += unit * 2 if dd() else unit
+            ws += g.tokens_words(r["toks"], dd)
         if mode == "pop":
-            ws += g.dbl([g.EOC], doubled)
-        lines.append((g.timecode(t, False), ws))
-        t += 30 * 8
+            ws += g.dbl([g.EOC], dd())
+        lines.append((g.timecode(t, drop), ws))
+        t += max(step, len(ws) + 45)
     if mode == "pop":
-        lines.append((g.timecode(t, False), g.dbl([g.EDM], doubled)))
+        lines.append((g.timecode(t, drop), g.dbl([g.EDM], dd())))
     return g.doc(lines)
 
 
-def observe(stream, r=None):
-    """-> (kind, payload, stash)  kind: 'ok' (payload = returned caps), 'len' (payload = message), 'err' (code)"""
+def observe(stream, r=None, **kw):
+    """-> (kind, payload): 'ok' (payload = texts of the returned captions), 'len' (message), 'err' (code)"""
     r = r or SCCReader()
-    res = impl.call(lambda: r.read(stream))
-    st = impl.call(lambda: [(c.format_start(), "".join(c.get_text_nodes())) for c in r.caption_stash.get_all()])
-    stash = st.v if isinstance(st, Ok) else None
+    res = impl.call(lambda: r.read(stream, **kw))
     if isinstance(res, Ok):
-        caps = [(c.format_start(), "".join(c.get_text_nodes())) for c in res.v.get_captions("en-US")]
-        return "ok", caps, stash
+        return "ok", ["".join(c.get_text_nodes()) for c in res.v.get_captions("en-US")]
     if res.code == 4:
-        return "len", str(impl.last_exc.args[0]), stash
-    return "err", res.code, stash
+        return "len", str(impl.last_exc.args[0])
+    return "err", res.code
 
 
-def wire_caps(caps):
-    return [[k, t] for k, t in caps]
+def private_store(stream):
+    """COUNTED information only: what the reader keeps in its private caption store after reading"""
+    r = SCCReader()
+    impl.call(lambda: r.read(stream))
+    st = impl.call(lambda: ["".join(c.get_text_nodes()) for c in r.caption_stash.get_all()])
+    return st.v if isinstance(st, Ok) else None
+
+
+def row_verdict(loads):
+    """-> (must_raise, may_raise, exact long rows, ambiguous?) from the transmitted rows (608 cells)"""
+    rows = [r for l in loads for r in l if r["hi"] != ""]
+    must = [r for r in rows if len(r["lo"]) > 32]
+    may = [r for r in rows if len(r["hi"]) > 32]
+    named = [r["lo"] for r in must if r["lo"] == r["hi"]]
+    return bool(must), bool(may), named, len(must) != len(may)
+
+
+def describe(mode, doubled, loads):
+    return {"mode": mode, "doubled": doubled,
+            "loads": [[(r["row"], r["indent"] + r["tab"], r["style"], r["hi"]) for r in l] for l in loads]}
+
+
+def judge(res, dist, stream, desc, loads, kind, payload, read_kw=None):
+    """the property on one read; returns True if a violation was recorded"""
+    must, may, named, ambiguous = row_verdict(loads)
+    if ambiguous:
+        dist["ambiguous_midrow_rows_not_judged"] = dist.get("ambiguous_midrow_rows_not_judged", 0) + 1
+    extra = {"read_kw": read_kw} if read_kw else {}
+    if kind == "ok":
+        bad = [l for t in payload for l in t.split("\n") if len(l) > 32]
+        if bad:
+            res["violations"].append({"kind": "long-line-returned", "replay": "stream", "stream": stream, "input": desc,
+                                      "what": f"read returned a caption line of {len(bad[0])} characters without raising "
+                                              f"the line-length error: {bad[0]!r}", **extra})
+            return True
+        if must:
+            long_row = next(r for l in loads for r in l if len(r["lo"]) > 32)
+            res["violations"].append({"kind": "long-row-silent", "replay": "stream", "stream": stream, "input": desc,
+                                      "what": f"a transmitted row of {len(long_row['lo'])} cells was returned silently "
+                                              f"(no line-length error): {long_row['lo']!r}", **extra})
+            return True
+    elif kind == "len":
+        if not may and not (read_kw or {}).get("simulate_roll_up"):
+            res["violations"].append({"kind": "spurious-length-error", "replay": "stream", "stream": stream,
+                                      "input": desc, "impl_message": payload,
+                                      "what": "the line-length error was raised although no transmitted row shows more "
+                                              "than 32 cells", **extra})
+            return True
+        if named and oracle1(1504, [[["", t] for t in named], Some(payload)]) != 1:
+            res["violations"].append({"kind": "error-misses-row", "replay": "stream", "stream": stream, "input": desc,
+                                      "impl_message": payload, "rows": named,
+                                      "what": "the line-length error does not contain the text of every transmitted row "
+                                              "longer than 32 characters", **extra})
+            return True
+    return False
 
 
 def run(ctx):
     rng = ctx.rng
     res = {"evaluations": 0, "nontrivial": set(), "violations": [], "disagreements": [], "distribution": {},
-           "streams": 4, "notes": []}
-    dist = {"mode": {}, "perm_group_sizes": {}, "outcome": {"ok": 0, "len": 0, "no-captions": 0},
-            "shared_start_streams": 0, "rows_over_32": 0, "rows_at_32_or_33": 0, "stash_unavailable": 0}
+           "streams": 2, "notes": []}
+    dist = {"mode": {}, "doubling": {}, "perm_group_sizes": {}, "outcome": {"ok": 0, "len": 0, "no-captions": 0},
+            "rows_over_32": 0, "rows_at_32_or_33": 0, "rows_with_blank_end": 0, "rows_with_midrow": 0,
+            "styled_preambles": 0, "long_streams": 0, "kw_reads": 0,
+            "info_message_differs_from_model": 0, "info_private_store_differs_from_rows": 0,
+            "info_private_store_unavailable": 0}
     res["distribution"] = dist
     cases = []       # (gid, mode, doubled, loads, stream)
-    ngroups = ctx.n(140, 4000)
-    fixed = [("break+repos", m, d) for m in ("pop", "paint", "roll2", "roll3", "roll4") for d in (False, True)]
+    ngroups = ctx.n(110, 3000)
+    fixed = [(sh, m, d) for sh in ("break+repos", "trailing-blank") for m in ("pop", "paint", "roll2", "roll3", "roll4")
+             for d in (False, True)]
     for gid in range(ngroups + len(fixed)):
         if gid < len(fixed):
             mode, doubled, loads, k = gen_group(rng, *fixed[gid])
@@ -135,46 +229,31 @@ def run(ctx):
             mode, doubled, loads, k = gen_group(rng)
         perms = list(itertools.permutations(loads[k]))
         dist["perm_group_sizes"][len(perms)] = dist["perm_group_sizes"].get(len(perms), 0) + 1
-        dist["mode"][mode] = dist["mode"].get(mode, 0) + 1
+        seed = rng.random()
         for p in perms:
             ls = [list(p) if i == k else l for i, l in enumerate(loads)]
-            cases.append((gid, mode, doubled, ls, build_stream(mode, doubled, ls)))
+            cases.append((gid, mode, doubled, ls, build_stream(mode, doubled, ls, __import__("random").Random(seed))))
+    for j in range(ctx.n(25, 600)):
+        mode, doubled, loads = gen_long(rng)
+        base = rng.choice([60, 30 * 55, 30 * 3599, 30 * 7000])
+        cases.append((("long", j), mode, doubled, loads,
+                      build_stream(mode, doubled, loads, rng, base=base, step=rng.choice([60, 240, 1900]),
+                                   drop=rng.random() < 0.5)))
+        dist["long_streams"] += 1
     obs = [observe(c[4]) for c in cases]
-    # model + oracle requests
-    reqs = []
-    for (gid, mode, doubled, loads, stream), (kind, payload, stash) in zip(cases, obs):
-        caps = stash if stash is not None else (payload if kind == "ok" else [])
-        out = Some(payload) if kind == "len" else None
-        reqs.append((1500, wire_caps(caps)))
-        reqs.append((1501, [wire_caps(payload if kind == "ok" else caps), out]))
-        # the statement's own reading: the outcome is decided by the TRANSMITTED rows (their characters per the
-        # independent CEA-608 tables): error iff some transmitted row has more than 32 characters, naming its full text
-        reqs.append((1501, [[["", t] for l in loads for (_, t, _) in l if t != ""], out]))
-    ans = oracle_batch(reqs)
-    # second correspondence stream: the FULL decoder model (request 600) on the same streams: outcome + exact message
     full = sccobs.model_batch([(c[4], 0) for c in cases])
-    for (gid, mode, doubled, loads, stream), (kind, payload, stash), m in zip(cases, obs, full):
-        if kind == "len":
-            same = isinstance(m, tuple) and m[1] == payload
-        elif kind == "ok":
-            same = isinstance(m, Ok) and [sccobs.cap_text(c) for c in m.v] == [t for _, t in payload]
-        else:
-            same = isinstance(m, Err) and m.code == payload
-        if not same:
-            res["disagreements"].append({"which": "full decoder model", "stream": stream,
-                                         "impl": [kind, payload if kind != "ok" else [t for _, t in payload]],
-                                         "model": repr(m)[:300]})
     by_group = {}
-    for i, ((gid, mode, doubled, loads, stream), (kind, payload, stash)) in enumerate(zip(cases, obs)):
+    for (gid, mode, doubled, loads, stream), (kind, payload), m in zip(cases, obs, full):
         res["evaluations"] += 1
-        model = r_opt(ans[3 * i])
-        ok = ans[3 * i + 1]
-        ok_rows = ans[3 * i + 2]
-        rows = [t for l in loads for (_, t, _) in l if t != ""]
-        nlong = sum(1 for t in rows if len(t) > 32)
-        dist["rows_over_32"] += nlong
-        dist["rows_at_32_or_33"] += sum(1 for t in rows if len(t) in (32, 33))
-        desc = {"mode": mode, "doubled": doubled, "loads": [[(r, t) for (r, t, _) in l] for l in loads]}
+        dist["mode"][mode] = dist["mode"].get(mode, 0) + 1
+        dist["doubling"][str(doubled)] = dist["doubling"].get(str(doubled), 0) + 1
+        rows = [r for l in loads for r in l if r["hi"] != ""]
+        dist["rows_over_32"] += sum(1 for r in rows if len(r["lo"]) > 32)
+        dist["rows_at_32_or_33"] += sum(1 for r in rows if len(r["hi"]) in (32, 33))
+        dist["rows_with_blank_end"] += sum(1 for r in rows if r["toks"] and (r["toks"][0] == " " or r["toks"][-1] == " "))
+        dist["rows_with_midrow"] += sum(1 for r in rows if any(isinstance(t, tuple) and t[0] == "mid" for t in r["toks"]))
+        dist["styled_preambles"] += sum(1 for r in rows if r["style"] or r["indent"] or r["tab"])
+        desc = describe(mode, doubled, loads)
         if kind == "err":
             if payload == 1 and not rows:
                 dist["outcome"]["no-captions"] += 1
@@ -184,126 +263,126 @@ def run(ctx):
                                               f"line-length error or captions"})
             continue
         dist["outcome"][kind] += 1
-        by_group.setdefault(gid, []).append((kind, stream, desc))
-        if stash is None:
-            dist["stash_unavailable"] += 1
-        keys = [k for k, _ in (stash or [])]
-        if len(set(keys)) < len(keys):
-            dist["shared_start_streams"] += 1
-            if nlong or any(len(t) in (32, 33) for t in rows):
-                res["nontrivial"].add(stream)
-        if ok != 1:
-            if kind == "ok":
-                bad = [l for _, t in payload for l in t.split("\n") if len(l) > 32]
-                res["violations"].append({"kind": "long-line-returned", "replay": "stream", "stream": stream,
-                                          "input": desc, "what": f"read returned a caption line of {len(bad[0])} "
-                                          f"characters without raising the line-length error: {bad[0]!r}"})
-            else:
-                res["violations"].append({"kind": "error-misses-line", "replay": "stream", "stream": stream,
-                                          "input": desc, "impl_message": payload,
-                                          "what": "line-length error raised but it does not name every stored line "
-                                                  "longer than 32 (or no stored line is longer than 32)"})
+        if not isinstance(gid, tuple):
+            by_group.setdefault(gid, []).append((kind, stream, desc, row_verdict(loads)[3]))
+        if len(rows) >= 2 and any(len(r["hi"]) >= 32 for r in rows):
+            res["nontrivial"].add(stream)
+        if judge(res, dist, stream, desc, loads, kind, payload):
             continue
-        if ok_rows != 1:
-            longrows = [t for t in rows if len(t) > 32]
-            res["violations"].append({
-                "kind": "long-row-silent" if kind == "ok" else "error-misses-row", "replay": "rows", "stream": stream,
-                "rows": rows, "input": desc, "impl_message": payload if kind == "len" else None,
-                "what": (f"a transmitted row of {len(longrows[0])} characters was returned silently (no line-length "
-                         f"error): {longrows[0]!r}" if kind == "ok" and longrows else
-                         "the line-length error does not name every transmitted row longer than 32 characters with "
-                         "its full text (or no transmitted row is longer than 32)")})
+        # correspondence with the full decoder model: outcome and returned caption texts
+        if kind == "len":
+            same = isinstance(m, tuple)
+            if same and m[1] != payload:
+                dist["info_message_differs_from_model"] += 1
+        else:
+            same = isinstance(m, Ok) and [sccobs.cap_text(c) for c in m.v] == payload
+        if not same:
+            res["disagreements"].append({"which": "full decoder model", "stream": stream, "input": desc,
+                                         "impl": [kind, payload], "model": repr(m)[:300]})
+    # counted information: the reader's private store vs the transmitted rows (sample)
+    for c in cases[:ctx.n(150, 1500)]:
+        st = private_store(c[4])
+        if st is None:
+            dist["info_private_store_unavailable"] += 1
             continue
-        # correspondence with the model (exact message)
-        impl_out = payload if kind == "len" else None
-        if stash is not None and model != impl_out:
-            res["disagreements"].append({"stream": stream, "input": desc, "impl": impl_out, "model": model})
-        # the stored lines are the transmitted rows (decoder tie, reported as a disagreement only)
-        if stash is not None:
-            got = sorted(l for _, t in stash for l in t.split("\n") if l != "")
-            if got != sorted(rows):
-                res["disagreements"].append({"stream": stream, "input": desc, "what": "stored lines differ from the "
-                                             "transmitted rows", "impl": got, "expected": sorted(rows)})
-    # HISTORIES: one reader object reads a first stream (which may raise the line-length or the timing error) and then
-    # a second one: the second outcome must be that of a fresh reader and must be decided by the second stream's rows
-    hist = []
-    pool = [c for c in cases]
-    for _ in range(ctx.n(150, 3000)):
-        first = rng.choice([None, None, "flash"])
-        c1 = rng.choice(pool) if first is None else None
-        s1 = c1[4] if c1 else flash_stream()
-        c2 = rng.choice(pool)
-        hist.append((s1, c2))
-    hreq = []
-    hobs = []
-    for s1, c2 in hist:
-        r = SCCReader()
-        k1, _, _ = observe(s1, r)
-        k2, p2, _ = observe(c2[4], r)
-        fk, fp, _ = observe(c2[4])
-        hobs.append((k1, k2, p2, fk, fp))
-        hreq.append((1501, [[["", t] for l in c2[3] for (_, t, _) in l if t != ""], Some(p2) if k2 == "len" else None]))
-    hans = oracle_batch(hreq)
-    dist["histories"] = {"total": len(hist), "first_raised_length": 0, "first_raised_timing": 0, "first_ok": 0}
-    for (s1, c2), (k1, k2, p2, fk, fp), okh in zip(hist, hobs, hans):
-        res["evaluations"] += 1
-        dist["histories"]["first_raised_length" if k1 == "len" else ("first_ok" if k1 == "ok" else "first_raised_timing")] += 1
-        rows2 = [t for l in c2[3] for (_, t, _) in l if t != ""]
-        if k2 == "err" and p2 == 1 and not rows2:
+        got = sorted(l.rstrip() for t in st for l in t.split("\n") if l.strip() != "")
+        rows = [r for l in c[3] for r in l if r["hi"] != ""]
+        if not all(r["lo"] == r["hi"] for r in rows):
             continue
-        if (k2, p2) != (fk, fp):
-            res["violations"].append({
-                "kind": "history-dependent", "replay": "history", "stream": s1, "stream2": c2[4], "rows": rows2,
-                "input": {"first_outcome": k1, "second": {"mode": c2[1], "rows": rows2}},
-                "what": f"a reader that had read another stream ({k1}) reads this stream as {k2} "
-                        f"({str(p2)[:80]!r}); a fresh reader gives {fk}: the outcome must depend on this stream's rows only"})
+        if got != sorted(r["lo"] for r in rows):
+            dist["info_private_store_differs_from_rows"] += 1
+    # order independence inside each group
     for gid, l in by_group.items():
-        kinds = set(k for k, _, _ in l)
-        if len(kinds) > 1:
+        kinds = set(k for k, _, _, _ in l)
+        if len(kinds) > 1 and not any(amb for _, _, _, amb in l):
             a = next(x for x in l if x[0] == "ok")
             b = next(x for x in l if x[0] == "len")
             res["violations"].append({"kind": "order-dependent", "replay": "pair", "stream": a[1], "stream2": b[1],
                                       "input": a[2], "input2": b[2],
                                       "what": "the same rows transmitted in two orders: one order is returned, the "
                                               "other raises the line-length error"})
-    res["rule"] = ("pop-on / paint-on / roll-up(2,3,4) streams, codes doubled or single, 1-3 loads, rows of 0-40 basic "
-                   "characters (boundary lengths 31/32/33/34/40 over-represented), one load of 2-4 rows in ALL its "
-                   "transmission orders. Non-trivial: a stream in which at least two stored captions share a start "
-                   "key and some row has length 32, 33 or more. Distinct streams counted.")
-    res["samples"] = [{"mode": c[1], "doubled": c[2], "loads": c[3]} for c in cases[:3]]
+    # other entry points of read: simulate_roll_up=True, offset != 0 (oracle only; the model has no such parameters)
+    kwcases = [c for c in cases if not isinstance(c[0], tuple)][:ctx.n(220, 4000)]
+    for i, (gid, mode, doubled, loads, stream) in enumerate(kwcases):
+        kw = {"simulate_roll_up": True} if i % 2 == 0 else {"offset": rng.choice([1, -2, 0.5, 7])}
+        if "simulate_roll_up" in kw and not mode.startswith("roll"):
+            kw = {"offset": 1}
+        kind, payload = observe(stream, **kw)
+        res["evaluations"] += 1
+        dist["kw_reads"] += 1
+        if kind == "err":
+            continue                                     # e.g. nothing left / timing error after an offset: not C15
+        judge(res, dist, stream, describe(mode, doubled, loads), loads, kind, payload, read_kw=kw)
+    # HISTORIES: one reader object reads a first stream (which may raise) and then a second one
+    pool = [c for c in cases if not isinstance(c[0], tuple)]
+    dist["histories"] = {"total": 0, "first_raised_length": 0, "first_raised_other": 0, "first_ok": 0}
+    for _ in range(ctx.n(150, 3000)):
+        c1 = rng.choice(pool) if rng.random() < 0.67 else None
+        s1 = c1[4] if c1 else flash_stream()
+        c2 = rng.choice(pool)
+        r = SCCReader()
+        k1, _ = observe(s1, r)
+        k2, p2 = observe(c2[4], r)
+        fk, fp = observe(c2[4])
+        res["evaluations"] += 1
+        dist["histories"]["total"] += 1
+        dist["histories"]["first_raised_length" if k1 == "len" else ("first_ok" if k1 == "ok" else "first_raised_other")] += 1
+        if (k2, p2) != (fk, fp):
+            res["violations"].append({
+                "kind": "history-dependent", "replay": "history", "stream": s1, "stream2": c2[4],
+                "input": {"first_outcome": k1, "second": describe(c2[1], c2[2], c2[3])},
+                "what": f"a reader that had read another stream ({k1}) reads this stream as {k2} "
+                        f"({str(p2)[:80]!r}); a fresh reader gives {fk}: the outcome must depend on this stream only"})
+    res["rule"] = ("groups: pop-on / paint-on / roll-up(2,3,4) streams, codes doubled / single / mixed per code, 1-3 loads, "
+                   "rows of 0-40 cells from every code of the three character tables incl. blanks at the ends, double "
+                   "blanks, transparent space, mid-row codes, erased characters, all preamble styles / indents / tab "
+                   "offsets, empty rows; one load of 2-4 rows in ALL its transmission orders; fixed shapes break+repos and "
+                   "32-characters-plus-trailing-blank in every mode; long streams of 12-30 loads (past 1 min / 1 h, "
+                   "drop-frame); reads with simulate_roll_up=True / offset; reader-reuse histories. Non-trivial: at least "
+                   "two non-empty rows and one of 32 or more cells. Distinct streams counted.")
+    res["samples"] = [describe(c[1], c[2], c[3]) for c in cases[:3]]
     res["clauses"] = {
-        "theorem": ["for every caption list the scan either raises with a message naming every line > 32 (listed "
-                    "lines = offending lines as a multiset) or every line is <= 32",
-                    "the outcome is a function of the line lengths only; invariant under permutation of the captions "
-                    "and under any change of the start keys",
-                    "pre-fix scan (overwrite on an existing key) refuted by a two-caption witness"],
-        "correspondence_only": ["decoding of the stream into stored captions (format_start keys, text with breaks): "
-                                "taken from the implementation (reader.caption_stash.get_all()); the stored lines are "
-                                "cross-checked against the transmitted rows",
-                                "exact text of the exception message (model = implementation on every stream)"]}
+        "theorem": ["scan: either the error naming every line > 32 (listed lines = offending lines as a multiset) or every "
+                    "line <= 32; outcome a function of the stored line lengths; invariant under permutation of the STORED "
+                    "captions and under change of keys", "whole reader model (parsed lines, simulate_roll_up=False): read "
+                    "never returns a line > 32 and the error names every over-long stored line (C15_read_never_silent)",
+                    "pre-fix scan refuted by a witness"],
+        "correspondence_only": ["invariance under the order of TRANSMISSION (all orders of a load are executed and compared; "
+                                "stream-level theorem for pop-on loads of non-adjacent rows: see props/C15.v if present)",
+                                "decoding of a stream into lines: full decoder model vs implementation (outcome + texts)",
+                                "simulate_roll_up=True and offset != 0: oracle on the implementation only",
+                                "reader reuse: second read compared with a fresh reader"]}
     res["notes"].append("streams whose rows are all empty raise CaptionReadNoCaptions and are counted, not judged")
+    res["notes"].append("counted information, not judged: exact wording of the message vs the model; the reader's private "
+                        "caption store vs the transmitted rows")
     return res
+
+
+def flash_stream():
+    """a stream on which read() raises the timing error (a caption displayed for one frame)"""
+    return g.doc([(g.timecode(60, False), [g.ENM, g.RCL, g.pac(15)] + g.text_words("flash") + [g.EOC, g.EDM])])
 
 
 def replay(ctx, rec):
     if rec.get("replay") == "history":
         r = SCCReader()
-        k1, _, _ = observe(rec["stream"], r)
-        k2, p2, _ = observe(rec["stream2"], r)
-        fk, fp, _ = observe(rec["stream2"])
-        okh = oracle1(1501, [[["", t] for t in rec["rows"]], Some(p2) if k2 == "len" else None])
-        return (k2, p2) != (fk, fp) or okh != 1, f"after {k1}: {k2} {str(p2)[:200]!r}; fresh: {fk}"
-    kind, payload, stash = observe(rec["stream"])
-    if rec.get("replay") == "rows":
-        if kind == "err":
-            return True, f"raised {impl.ERR_NAMES.get(payload, payload)}"
-        okr = oracle1(1501, [[["", t] for t in rec["rows"]], Some(payload) if kind == "len" else None])
-        return okr != 1, f"outcome {kind}: {payload!r}"[:600]
+        k1, _ = observe(rec["stream"], r)
+        k2, p2 = observe(rec["stream2"], r)
+        fk, fp = observe(rec["stream2"])
+        return (k2, p2) != (fk, fp), f"after {k1}: {k2} {str(p2)[:200]!r}; fresh: {fk}"
+    kw = rec.get("read_kw") or {}
+    kind, payload = observe(rec["stream"], **kw)
     if rec.get("replay") == "pair":
-        kind2, _, _ = observe(rec["stream2"])
+        kind2, _ = observe(rec["stream2"])
         return kind != kind2, f"first order: {kind}, second order: {kind2}"
     if kind == "err":
         return True, f"raised {impl.ERR_NAMES.get(payload, payload)}"
-    caps = payload if kind == "ok" else (stash or [])
-    ok = oracle1(1501, [wire_caps(caps), Some(payload) if kind == "len" else None])
-    return ok != 1, f"outcome {kind}: {payload!r}"[:600]
+    k = rec.get("kind")
+    if k in ("long-line-returned", "long-row-silent"):
+        return kind == "ok", f"outcome {kind}: {payload!r}"[:600]
+    if k == "spurious-length-error":
+        return kind == "len", f"outcome {kind}: {payload!r}"[:600]
+    if k == "error-misses-row":
+        bad = kind == "len" and oracle1(1504, [[["", t] for t in rec["rows"]], Some(payload)]) != 1
+        return bad, f"outcome {kind}: {payload!r}"[:600]
+    return False, f"outcome {kind}"
